@@ -353,22 +353,22 @@ func runXfcc(r *mon.Run, n int) {
 			if ne > 1 && elems[0].cn != elems[ne-1].cn {
 				r.Class("xfcc:identity:first-and-last-differ")
 			}
-			switch chosen.cnClass {
-			case "plain", "absent", "nosubject":
-				if ac.Principal != chosen.cn {
-					witness["selected"] = selName
-					r.Violation("xfcc:identity:"+selName+":"+chosen.cnClass,
-						fmt.Sprintf("default identity %q, CN of the %s element's subject %q is %q", ac.Principal, selName, chosen.Subject, chosen.cn), witness)
-				}
-			case "multirdn":
+			if chosen.cnClass == "multirdn" {
 				if ac.Principal == chosen.cn {
 					multiEq++
 				} else {
 					multiNe++
 				}
-				fallthrough
+			}
+			switch chosen.cnClass {
+			case "plain", "absent", "nosubject", "multirdn":
+				if ac.Principal != chosen.cn {
+					witness["selected"] = selName
+					r.Violation("xfcc:identity:"+selName+":"+chosen.cnClass,
+						fmt.Sprintf("default identity %q, CN of the %s element's subject %q is %q", ac.Principal, selName, chosen.Subject, chosen.cn), witness)
+				}
 			default:
-				// escaped / multi-valued RDN: only determinism.
+				// CN value needing RFC 4514 escapes: only determinism.
 				ac2, _ := auth(req)
 				if ac2 == nil || ac2.Principal != ac.Principal {
 					r.Violation("xfcc:identity:nondeterministic", "same header, different principal", witness)
@@ -376,8 +376,8 @@ func runXfcc(r *mon.Run, n int) {
 			}
 		}
 	}
-	r.Set("observed_not_asserted.multi_valued_rdn_principal_equals_cn", multiEq)
-	r.Set("observed_not_asserted.multi_valued_rdn_principal_differs", multiNe)
+	r.Set("multi_valued_rdn.principal_equals_cn", multiEq)
+	r.Set("multi_valued_rdn.principal_differs", multiNe)
 }
 
 func runNoise(r *mon.Run, n int) {
@@ -422,10 +422,10 @@ func main() {
 		"bearer:reject:scheme-lower", "bearer:reject:no-space", "bearer:reject:subst", "bearer:reject:delete", "bearer:reject:insert", "bearer:reject:trailing-byte",
 		"xfcc:quoted-comma", "xfcc:quoted-semicolon", "xfcc:escaped-quote", "xfcc:escaped-backslash", "xfcc:urlencoded",
 		"xfcc:multi-element", "xfcc:key-case", "xfcc:ows",
-		"xfcc:identity:first:plain", "xfcc:identity:last:plain", "xfcc:identity:first:absent", "xfcc:identity:first-and-last-differ",
+		"xfcc:identity:first:plain", "xfcc:identity:last:plain", "xfcc:identity:first:absent", "xfcc:identity:first:multirdn", "xfcc:identity:last:multirdn", "xfcc:identity:first-and-last-differ",
 		"xfcc:noise")
 	r.Assume("header values are handed to the AuthenticateFunc through http.Header.Set on a constructed *http.Request (the public API); net/http's own header canonicalisation is trusted")
-	r.Assume("XFCC grammar as documented in mtls.go: comma-separated elements, semicolon-separated key=value pairs, double-quoted values with backslash escapes, Cert/URI/By percent-encoded; RFC 4514-escaped CN values and multi-valued RDNs are generated but only determinism is asserted for them")
+	r.Assume("XFCC grammar as documented in mtls.go: comma-separated elements, semicolon-separated key=value pairs, double-quoted values with backslash escapes, Cert/URI/By percent-encoded; CN values that need RFC 4514 escapes are generated but only determinism is asserted for them; multi-valued RDNs (CN=a+OU=b) are asserted: the CN is a")
 
 	runBearer(r, r.N(1500, 40000))
 	runXfcc(r, r.N(60000, 2000000))
